@@ -61,7 +61,8 @@ var witnesses = []witness{
 		op: "IN list (filter)", observed: "IN is TRUE for row ids [], some 'l = element' is TRUE for row ids [1]"},
 	{id: "C07-hashin-first-element-type", l: numKinds[0], r: numKinds[0], lv: []string{"2"}, rv: []string{"2"}, inList: []string{"1", "1.50"},
 		op: "IN list (filter)", observed: "IN is TRUE for row ids [1], some 'l = element' is TRUE for row ids []"},
-	{id: "C07-in-collation", l: vcAI, r: vcAI, lv: []string{"'a'"}, rv: []string{"'a'"}, inList: []string{"'A'"},
+	// repaired in /repo (listed as C29-in-binary, status fixed): kept as a regression witness
+	{id: "C29-in-binary", l: vcAI, r: vcAI, lv: []string{"'a'"}, rv: []string{"'a'"}, inList: []string{"'A'"},
 		op: "IN list (projection)", observed: "IN is TRUE for row ids [], some 'l = element' is TRUE for row ids [1]"},
 }
 
